@@ -81,6 +81,7 @@ func runDefault(o *Out, spec *Spec, r *Ref, m *MethodSpec) {
 		srcStr := Format(src)
 		args := make([]reflect.Value, ft.NumIn())
 		r.Ctx = map[reflect.Type]reflect.Value{}
+		WalkCtx = r.Ctx
 		for a := 0; a < ft.NumIn(); a++ {
 			if a == srcIdx {
 				args[a] = src
